@@ -76,9 +76,37 @@ PBCS = gens.PBCS
 
 # ----------------------------------------------------------------------------- building inputs
 
-def _spell(P, flat, how, dtype=float):
-    """`dtype`: floating dtype of the ndarray spellings (the values of P are exactly representable in it)"""
+def int_dtype(idt, A):
+    """the integer dtype named `idt` if it holds every value of the whole-number array A exactly, else None"""
+    if idt is None or not np.all(A == np.rint(A)):
+        return None
+    if idt == 'bool':
+        return np.dtype(bool) if np.all((A == 0) | (A == 1)) else None
+    dt = np.dtype(idt)
+    ii = np.iinfo(dt)
+    if float(A.min()) < max(int(ii.min), -2 ** 53) or float(A.max()) > min(int(ii.max), 2 ** 53):
+        return None
+    return dt
+
+
+def _spell(P, flat, how, dtype=float, idt=None):
+    """`dtype`: floating dtype of the ndarray spellings (the values of P are exactly representable in it); `idt`: integer
+    dtype of the spellings 'narrowint' / 'npscalars' (used when it holds the whole-number values of P exactly)"""
     A = P[0] if flat else P
+    if how in ('narrowint', 'npscalars'):
+        # whole numbers in a narrow / unsigned / big-endian / bool array, or as nested lists of numpy scalars of that dtype
+        # (only for the free functions: System.* documents ints as indices)
+        dt = int_dtype(idt, A)
+        if dt is None:
+            how = 'intarray' if how == 'narrowint' else 'intlist'
+        else:
+            I = np.rint(A).astype(np.int64).astype(dt) if dt.kind != 'u' else np.rint(A).astype(np.uint64).astype(dt)
+            if not np.array_equal(I.astype(float), A):
+                raise HarnessError('integer spelling %r does not hold %r' % (dt, A.tolist()))
+            if how == 'narrowint':
+                return I
+            sc = I.astype(dt.newbyteorder('='))
+            return [[v for v in row] for row in sc] if sc.ndim == 2 else [v for v in sc]
     if how == 'array':
         return np.array(A, dtype=dtype)
     if how == 'fview':      # non-contiguous view with the same values
@@ -123,6 +151,16 @@ def _index(lo, n, natoms, how):
         return [i - natoms for i in ids]
     if how == 'array':
         return np.array(ids, dtype=np.int64)
+    if how == 'i8arr':
+        return np.array(ids, dtype=np.int8)
+    if how == 'u8arr':
+        return np.array(ids, dtype=np.uint8)
+    if how == 'bearr':
+        return np.array(ids, dtype='>i4')
+    if how == 'u64s':
+        return np.uint64(lo) if n == 1 else np.array(ids, dtype=np.uint64)
+    if how == 'i16neg':
+        return np.int16(lo - natoms) if n == 1 else np.array([i - natoms for i in ids], dtype=np.int16)
     if how == 'mask':
         m = np.zeros(natoms, dtype=bool)
         m[lo:lo + n] = True
@@ -154,8 +192,8 @@ def _peek(box):
 def mutate_box(box, system, how, cell, pbcw):
     """turn the Box OBJECT `box` (held by `system`, if there is one) in place into `cell` through the public way `how`;
     'wrap' instead lets System.wrap() extend the box along its non-periodic directions.  Returns the way actually used."""
-    Vt, ot = gens.cell_vects(cell), gens.cell_origin(cell)
-    if how in ('set_lengths', 'set_hi_los', 'set_abc') and (cell.get('rot') or cell.get('lefthanded')):
+    Vt, ot = gens_c02.cell_vects(cell), gens_c02.cell_origin(cell)
+    if how in ('set_lengths', 'set_hi_los', 'set_abc') and (cell.get('rot') or cell.get('lefthanded') or cell.get('sym')):
         how = 'set_vects'           # those three describe LAMMPS-oriented cells only
     if system is None and (how.startswith('sys_') or how == 'wrap'):
         raise HarnessError('history %r needs a System' % how)
@@ -249,7 +287,7 @@ def wrap_pbc(i):
     return PBCS[i % 7]
 
 
-_FDT = {'f32': np.float32, 'f16': np.float16}
+_FDT = {'f32': np.float32, 'f16': np.float16, 'f64be': np.dtype('>f8'), 'f32be': np.dtype('>f4')}
 
 
 def float_dtype(name, unit):
@@ -293,15 +331,25 @@ class Ledger:
             self.inputs.append((arr, np.array(arr, copy=True), where))
         return arr
 
-    def verify(self, labs):
-        res = self.results
-        for raw, snap, where in res:
-            if not (raw.shape == snap.shape and np.array_equal(raw, snap)):
-                raise Violation('the array returned by %s was %r at return time and is %r after later calls'
-                                % (where, snap.tolist(), raw.tolist()))
+    def check_inputs(self):
         for arr, snap, where in self.inputs:
             if not np.array_equal(arr, snap):
                 raise Violation('the input array of %s was changed: %r -> %r' % (where, snap.tolist(), arr.tolist()))
+
+    def rebase(self, arr):
+        """the CALLER has overwritten `arr` in place (after check_inputs): from now on it must keep its new content"""
+        self.inputs = [(a, np.array(a, copy=True) if (a is arr or np.shares_memory(a, arr)) else snap, where)
+                       for a, snap, where in self.inputs]
+        self.results = [(a, np.array(a, copy=True) if (a is arr or np.shares_memory(a, arr)) else snap, where)
+                        for a, snap, where in self.results]
+
+    def verify(self, labs):
+        res = self.results
+        for raw, snap, where in res:
+            if not (raw.shape == snap.shape and np.array_equal(raw, snap, equal_nan=True)):
+                raise Violation('the array returned by %s was %r at return time and is %r after later calls'
+                                % (where, snap.tolist(), raw.tolist()))
+        self.check_inputs()
         for i in range(len(res)):
             a = res[i][0]
             for j in range(i + 1, len(res)):
@@ -347,7 +395,7 @@ def judge_pairs(d, m, B0, B1, V, pbc, where):
 
 def _ghost(am, cell, pbc, ledger):
     """a short-lived other Box is used by both functions and dropped (its id may be taken over by the next Box)"""
-    g = am.Box(vects=gens.cell_vects(cell), origin=gens.cell_origin(cell))
+    g = am.Box(vects=gens_c02.cell_vects(cell), origin=gens_c02.cell_origin(cell))
     V = np.array(g.vects, dtype=float)
     B0 = np.array([[0.1, 0.2, 0.3]]) @ V + np.array(g.origin)
     B1 = np.array([[0.9, 0.8, 0.1]]) @ V + np.array(g.origin)
@@ -410,7 +458,7 @@ class Setup:
             if hist.get('ghost'):
                 _ghost(am, hist['cell'], pbcw, self.ledger)
             first = c if how == 'wrap' else hist['cell']
-        self.box = am.Box(vects=gens.cell_vects(first), origin=gens.cell_origin(first))
+        self.box = am.Box(vects=gens_c02.cell_vects(first), origin=gens_c02.cell_origin(first))
         self.system = None
         if need_sys:
             Vf, of = np.array(self.box.vects, dtype=float), np.array(self.box.origin, dtype=float)
@@ -494,6 +542,8 @@ class Setup:
             sdt = self.system.atoms.pos.dtype
             if sdt.kind == 'f' and sdt.itemsize < 8:
                 self.labs.add('pos_f%d' % (8 * sdt.itemsize))
+            if sdt.byteorder == '>':
+                self.labs.add('pos_be')
             self.ledger.add_input(self.system.atoms.pos, 'system.atoms.pos')
         # dtype of the ndarray spellings: the narrow one if it holds the judged positions exactly (a System whose first state
         # was outside the range of float16 stores float32, and its setters round to that), else the next wider one
@@ -505,8 +555,12 @@ class Setup:
                     break
         if self.system is None and self.adt is not float:
             self.labs.add('pos_f%d' % (8 * np.dtype(self.adt).itemsize))
+            if np.dtype(self.adt).byteorder == '>':
+                self.labs.add('pos_be')
         if self.route in ('func', 'sys_pos', 'sys_mix') and self.adt is not float:
             self.labs.add('arg_f%d' % (8 * np.dtype(self.adt).itemsize))
+            if np.dtype(self.adt).byteorder == '>':
+                self.labs.add('arg_be')
         if fdt is not None and not cart:
             # the positions really used are rounded ones: their relative coordinates (for the in-cell premise) are recomputed
             inv = np.linalg.inv(self.V)
@@ -523,6 +577,7 @@ class Setup:
         r = case.get('pbcrot', 0)
         order = PBCS[r % 8:] + PBCS[:r % 8]
         self.pbcs = order[::-1] if r >= 8 else order
+        self._cand = {}
 
     def args(self):
         case = self.case
@@ -531,27 +586,188 @@ class Setup:
         how = case['spell']
         dt = self.adt
         if self.route != 'func':    # System.* documents integers as atom indices: whole numbers are spelled as floats there
-            how = {'intlist': 'list', 'intarray': 'array'}.get(how, how)
+            how = {'intlist': 'list', 'intarray': 'array', 'narrowint': 'array', 'npscalars': 'list'}.get(how, how)
+        else:
+            how = {'narrowint': 'intarray', 'npscalars': 'intlist'}.get(how, how) if case.get('idt') is None else how
         if self.route == 'sys_mix':
             return (_spell(self.P0, case['flat0'], how, dt), _index(self.n0, self.n1, self.natoms, case['idx']))
-        return (_spell(self.P0, case['flat0'], how, dt), _spell(self.P1, case['flat1'], how, dt))
+        idt = case.get('idt')
+        return (_spell(self.P0, case['flat0'], how, dt, idt), _spell(self.P1, case['flat1'], how, dt, idt))
 
     def call(self, what, pbc):
-        """what = 'dvect' | 'dmag'; returns the raw result (entered in the ledger together with the arrays it was given)"""
+        """what = 'dvect' | 'dmag'; returns the raw result (entered in the ledger together with the arrays it was given).  The
+        objects handed in (Box, System periodicity, pbc flags) must be what they were after the call."""
         a0, a1 = self.args()
         where = '%s[%s] pbc=%r' % (what, self.route, pbc)
         self.ledger.add_input(a0, where + ' pos_0')
         self.ledger.add_input(a1, where + ' pos_1')
+        flags = _spell_pbc(pbc, self.case['pbcspell'])
         if self.route == 'func':
-            raw = getattr(self.am, what)(a0, a1, self.box, _spell_pbc(pbc, self.case['pbcspell']))
+            raw = getattr(self.am, what)(a0, a1, self.box, flags)
         else:
-            self.system.pbc = _spell_pbc(pbc, self.case['pbcspell'])
+            self.system.pbc = flags
             raw = getattr(self.system, what)(a0, a1)
+            require(self.system.pbc.tolist() == [bool(x) for x in pbc],
+                    lambda: '%s changed the periodicity of the System to %r' % (where, self.system.pbc.tolist()))
+        require([bool(x) for x in flags] == [bool(x) for x in pbc], lambda: '%s changed the pbc flags it was given to %r' % (where, flags))
+        require(np.array_equal(self.box.vects, self.V) and np.array_equal(self.box.origin, self.o),
+                lambda: '%s changed the Box it was given: vects %r origin %r' % (where, self.box.vects.tolist(), self.box.origin.tolist()))
         return self.ledger.add(raw, where)
+
+    def cand(self, pbc):
+        """the candidates of the case under pbc, and which rows are DIRECT: the direct separation is shorter than every other
+        candidate by more than 1e-6 relative (no image can win, whatever the rounding)"""
+        key = tuple(bool(x) for x in pbc)
+        if key not in self._cand:
+            _, C, L27 = candidates(self.D0, self.V, pbc)
+            direct = np.all(L27[:, :1] * (1 + 1e-6) < L27[:, 1:], axis=1) if L27.shape[1] > 1 else np.ones(self.N, dtype=bool)
+            if L27.shape[1] > 1:
+                two = np.sort(L27, axis=1)[:, :2]
+                gap = (two[:, 1] - two[:, 0]) / np.where(two[:, 1] > 0, two[:, 1], 1.0)
+                if np.any((gap > 1e-13) & (gap < 1e-3)):
+                    self.labs.add('near_tie')       # the two shortest candidates are almost, but not, equally long
+            self._cand[key] = (C, L27, direct, np.sqrt((self.D0 * self.D0).sum(axis=1)))
+        return self._cand[key]
+
+    def row_own(self, d, m, pbc, where):
+        """rows whose direct separation wins outright are that separation, each to ITS OWN size: p1 - p0 is one rounding per
+        component, its length three more; nothing in the statement lets the other rows of the call, or the cell, enter"""
+        _, _, direct, L0 = self.cand(pbc)
+        if d is not None:
+            err = np.abs(d - self.D0).max(axis=1)
+            bad = direct & (err > 16 * EPS * L0)
+            if bad.any():
+                i = int(np.argmax(bad))
+                raise Violation('%s: pair %d: the direct separation %r wins outright (next candidate > 1e-6 longer) but d = %r '
+                                '(differs by %.3g = %.3g of its own length; other rows up to %.3g long)'
+                                % (where, i, self.D0[i].tolist(), d[i].tolist(), err[i], err[i] / L0[i], L0.max()))
+        if m is not None:
+            err = np.abs(m - L0)
+            bad = direct & (err > 16 * EPS * L0)
+            if bad.any():
+                i = int(np.argmax(bad))
+                raise Violation('%s: pair %d: the direct separation of length %.17g wins outright but dmag = %.17g '
+                                '(relative difference %.3g; other rows up to %.3g long)' % (where, i, L0[i], m[i], err[i] / L0[i], L0.max()))
+        if any(pbc) and direct.any():
+            self.labs.add('row_own')
+            nz = L0[direct & (L0 > 0)]
+            if len(nz) >= 2 and nz.max() >= 1e8 * nz.min():
+                self.labs.add('decades8')
+
+    def singles(self, labs):
+        """one array, rows of very different size: every row of the many-row call equals the call with that row alone"""
+        am = self.am
+        pbc = self.pbcs[-1]
+        where = 'rows one by one, pbc=%r' % (pbc,)
+        B0, B1 = np.array(self.B0, dtype=float), np.array(self.B1, dtype=float)
+        self.ledger.add_input(B0, where + ' pos_0')
+        self.ledger.add_input(B1, where + ' pos_1')
+        D = np.asarray(self.ledger.add(am.dvect(B0, B1, self.box, pbc), 'dvect ' + where), dtype=float).reshape(-1, 3)
+        M = np.asarray(self.ledger.add(am.dmag(B0, B1, self.box, pbc), 'dmag ' + where), dtype=float).reshape(-1)
+        judge_pairs(D, M, B0, B1, self.V, pbc, where)
+        self.row_own(D, M, pbc, where)
+        _, L27, direct, L0 = self.cand(pbc)
+        for i in range(self.N):
+            one = np.asarray(self.ledger.add(am.dvect(B0[i], B1[i], self.box, pbc), 'dvect of row %d alone' % i), dtype=float).reshape(3)
+            mone = float(np.asarray(self.ledger.add(am.dmag(B0[i], B1[i], self.box, pbc), 'dmag of row %d alone' % i), dtype=float).reshape(()))
+            tol = 16 * EPS * float(L0[i]) if direct[i] else float(self.atol[i])
+            msg = _same_choice(D[i], one, L27[i], tol)
+            require(msg is None, lambda: '%s: row %d of the %d-row call vs the same pair alone: %s' % (where, i, self.N, msg))
+            require(abs(M[i] - mone) <= 1e-12 * mone + tol,
+                    lambda: '%s: row %d of the %d-row dmag call is %.17g, the same pair alone %.17g' % (where, i, self.N, M[i], mone))
+        labs.add('rows_alone')
+
+    def reuse(self, labs):
+        """caller-side mutation: the caller overwrites in place what it was handed OUT, asks again with the SAME input objects,
+        overwrites in place what it handed IN (positions, pbc flags; the positions its System hands out) and asks again, then
+        re-defines the Box through its setter and asks again.  Every answer is judged for the values the objects hold at the
+        time of the call; the answers given before must not move (ledger)."""
+        am = self.am
+        self.ledger.check_inputs()
+        V = self.V
+        dt = self.adt
+        X0, X1 = np.array(self.P0, dtype=dt), np.array(self.P1, dtype=dt)
+        flags = np.array(self.pbcs[1], dtype=bool)
+        box = self.box
+        garbage = -7.25 * float(np.abs(V).max())
+
+        def ask(stage, V):
+            F0, F1 = np.array(X0, dtype=float), np.array(X1, dtype=float)
+            N = max(len(F0), len(F1))
+            B0 = np.broadcast_to(F0, (N, 3)) if len(F0) == 1 else F0
+            B1 = np.broadcast_to(F1, (N, 3)) if len(F1) == 1 else F1
+            pbc = [bool(x) for x in flags]
+            where = 'same input objects, %s, pbc=%r' % (stage, pbc)
+            d = am.dvect(X0, X1, box, flags)
+            m = am.dmag(X0, X1, box, flags)
+            require(np.array_equal(np.array(X0, dtype=float), F0) and np.array_equal(np.array(X1, dtype=float), F1)
+                    and flags.tolist() == pbc, lambda: '%s: the arrays handed in were changed by the call' % where)
+            judge_pairs(d, m, B0, B1, V, pbc, where)
+            return d, m
+
+        d1, m1 = ask('first call', V)
+        kept = (np.array(d1, copy=True), np.array(m1, copy=True))
+        for out in (d1, m1):        # the caller uses the arrays it was handed for something else
+            if out.flags.writeable:
+                out[...] = garbage
+            self.ledger.add(out, 'a result array the caller has overwritten')
+        d2, m2 = ask('after the caller overwrote the results of the first call', V)
+        require(np.array_equal(d2, kept[0]) and np.array_equal(m2, kept[1]),
+                lambda: 'the same call with the same objects gave %r / %r first and %r / %r after the caller had overwritten the '
+                        'arrays it was handed' % (kept[0].tolist(), kept[1].tolist(), d2.tolist(), m2.tolist()))
+        self.ledger.add(d2, 'dvect, second call with the same objects')
+        self.ledger.add(m2, 'dmag, second call with the same objects')
+        # the input arrays get other positions IN PLACE (points moved by fractions of the cell vectors), the flags other values
+        with np.errstate(over='ignore'):
+            Y0 = (np.array(X0, dtype=float) + np.array([0.37, -0.21, 0.45]) @ V).astype(dt)
+            Y1 = (np.array(X1, dtype=float) + np.array([-0.45, 0.33, -0.12]) @ V).astype(dt)
+        if np.all(np.isfinite(Y0)) and np.all(np.isfinite(Y1)):
+            X0[...] = Y0
+            X1[...] = Y1
+            flags[...] = self.pbcs[2]
+            d3, m3 = ask('after the caller overwrote the positions and flags in place', V)
+            self.ledger.add(d3, 'dvect, call after the inputs were overwritten in place')
+            self.ledger.add(m3, 'dmag, call after the inputs were overwritten in place')
+            labs.add('reuse_inputs')
+        # the System route: the positions the System hands out are overwritten in place, same index objects
+        s = self.system
+        if s is not None and s.atoms.pos.dtype.kind == 'f':
+            i0, i1 = np.arange(self.n0), np.arange(self.n0, self.natoms)
+            self.ledger.add_input(i0, 'index array 0')
+            self.ledger.add_input(i1, 'index array 1')
+            for stage in ('before', 'after the caller overwrote system.atoms.pos in place'):
+                held = np.array(s.atoms.pos, dtype=float)
+                H0, H1 = held[:self.n0], held[self.n0:]
+                N = self.N
+                B0 = np.broadcast_to(H0, (N, 3)) if self.n0 == 1 else H0
+                B1 = np.broadcast_to(H1, (N, 3)) if self.n1 == 1 else H1
+                pbc = self.pbcs[3] if stage == 'before' else self.pbcs[4]
+                s.pbc = pbc
+                where = 'System, same index objects, %s, pbc=%r' % (stage, pbc)
+                d = self.ledger.add(s.dvect(i0, i1), 'dvect ' + where)
+                m = self.ledger.add(s.dmag(i0, i1), 'dmag ' + where)
+                judge_pairs(d, m, B0, B1, np.array(s.box.vects, dtype=float), pbc, where)
+                if stage == 'before':
+                    pos = s.atoms.pos
+                    with np.errstate(over='ignore'):
+                        Y = (held + np.array([0.29, 0.41, -0.35]) @ V).astype(pos.dtype)
+                    if not np.all(np.isfinite(Y)):
+                        break
+                    pos[...] = Y
+                    self.ledger.rebase(pos)
+                    labs.add('reuse_system')
+        # the Box is re-defined through its setter: same object, same position arrays
+        box.vects = V * np.array([[1.25], [0.8], [1.1]])
+        V2 = np.array(box.vects, dtype=float)
+        d4, m4 = ask('after the caller re-defined the Box through its setter', V2)
+        self.ledger.add(d4, 'dvect, call after the Box was re-defined')
+        self.ledger.add(m4, 'dmag, call after the Box was re-defined')
+        labs.add('reuse')
 
     def finish(self, labs):
         """after the 8 judged calls of the case (all with the same number of pairs): optionally judged calls with OTHER numbers
-        of pairs; then every array handed out since the objects were made is compared with its snapshot"""
+        of pairs, the rows of a many-decades array one by one, the caller-side mutation stage; then every array handed out
+        since the objects were made is compared with its snapshot"""
         am, k = self.am, int(self.case.get('after', 0))
         pbc = self.pbcs[0]
         extra = []
@@ -566,7 +782,15 @@ class Setup:
             m = self.ledger.add(am.dmag(B0, B1, self.box, pbc), 'dmag ' + where)
             judge_pairs(d, m, B0, B1, self.V, pbc, where)
             labs.add('after_other_count')
+        if self.case['kind'] == 'decades':
+            self.singles(labs)
+        if self.case.get('reuse'):
+            self.reuse(labs)
+        labs |= self.labs
         self.ledger.verify(labs)
+        for f in ('decades8', 'reuse', 'sym', 'sym_upper', 'near_tie', 'tiny_tilt'):
+            if f in labs and 'nt' in labs:
+                labs.add('nt_' + f)
         if 'hist_warm' in labs and 'ledger' in labs:
             labs.add('ledger_warm')
         for f in ('pos_f32', 'pos_f16'):
@@ -584,7 +808,9 @@ class Setup:
                 lambda: '%s returned shape %r for inputs of %d and %d points' % (where, d.shape, self.n0, self.n1))
         d = d.reshape(-1, 3)
         require(bool(np.all(np.isfinite(d))), lambda: '%s returned non-finite values %r' % (where, d))
-        return np.array(d, dtype=float)
+        d = np.array(d, dtype=float)
+        self.row_own(d, None, pbc, where)
+        return d
 
     def dmag(self, pbc):
         raw = self.call('dmag', pbc)
@@ -595,7 +821,9 @@ class Setup:
                 lambda: '%s returned shape %r for inputs of %d and %d points' % (where, m.shape, self.n0, self.n1))
         m = m.reshape(-1)
         require(bool(np.all(np.isfinite(m))), lambda: '%s returned non-finite values %r' % (where, m))
-        return np.array(m, dtype=float)
+        m = np.array(m, dtype=float)
+        self.row_own(None, m, pbc, where)
+        return m
 
     def labels(self):
         case = self.case
@@ -611,6 +839,30 @@ class Setup:
         labs.add('kind_' + case['kind'].split('+')[0])
         if '+near' in case['kind']:
             labs.add('near')
+        if '+face' in case['kind']:
+            labs.add('near_face')
+        if '+tie' in case['kind']:
+            labs.add('half_vector_pairs')
+        c = case['cell']
+        labs |= gens_c02.sym_labels(c)
+        if any(0 < abs(c[t]) <= 1e-4 * c[r] for t, r in (('xy', 'lx'), ('xz', 'lx'), ('yz', 'ly'))):
+            labs.add('tiny_tilt')
+            aV = np.abs(self.V)
+            if np.any((aV > 0) & (aV <= 1e-4 * aV.max())):
+                labs.add('tiny_tilt_kept')      # (Box zeroes components below 1e-9 of its largest one: the rest is really there)
+        if self.route == 'func' and case['spell'] in ('narrowint', 'npscalars'):
+            dts = [int_dtype(case.get('idt'), X) for X in (self.P0, self.P1)]
+            got = [dt for dt in dts if dt is not None]
+            if got:
+                labs.add('arg_' + case['spell'])
+                if any(dt.kind in 'ub' for dt in got):
+                    labs.add('arg_unsigned')
+                if any(dt.byteorder == '>' for dt in got):
+                    labs.add('arg_int_be')
+                if any(dt.itemsize <= 2 for dt in got):
+                    labs.add('arg_int8_16')
+                if case.get('lim'):
+                    labs.add('arg_at_limit')
         if NI.is_orthogonal_exact(self.V):
             labs.add('ortho')
         if self.cond > 1e3:
@@ -941,7 +1193,7 @@ def oracle_displacement(case):
         if k == 1 and build == 'sharedbox':
             box = systems[0].box
         else:
-            box = am.Box(vects=gens.cell_vects(first), origin=gens.cell_origin(first))
+            box = am.Box(vects=gens_c02.cell_vects(first), origin=gens_c02.cell_origin(first))
         P, S = positions(k, np.array(box.vects, dtype=float), np.array(box.origin, dtype=float), widen=(hows[k] == 'wrap'))
         if ints[k]:
             require(bool(np.all(P == np.rint(P))), lambda: 'harness: positions of system %d are not whole numbers' % k)
